@@ -395,11 +395,28 @@ class State:
                         return self._tags[x.get_id()] == y.decl().name()
         return None
 
+    def _note_class_terms(self, e):
+        """class-valued terms that occur in subclass(...) tests get the lattice facts instantiated for them"""
+        seen = set()
+        stack = [e]
+        while stack:
+            x = stack.pop()
+            if x.get_id() in seen or not z3.is_app(x):
+                continue
+            seen.add(x.get_id())
+            if x.decl().name() == 'subclass' and x.num_args() == 2 and not z3.is_int_value(x.arg(0)):
+                t = x.arg(0)
+                if not any(t.eq(k) for k in self.sym_classes):
+                    self.sym_classes.append(t)
+            stack.extend(x.children())
+
     def branch(self, cond):
         """Python bool for this path; records the alternative for the driver."""
         if isinstance(cond, bool):
             return cond
         cond = z3.simplify(cond)
+        if z3.is_app(cond) and 'subclass' in str(cond.decl()) or (not z3.is_true(cond) and not z3.is_false(cond) and 'subclass(' in cond.sexpr()):
+            self._note_class_terms(cond)
         if z3.is_true(cond):
             return True
         if z3.is_false(cond):
